@@ -289,7 +289,8 @@ class SpecGen:
         if enc == "bitmasked":
             vw = r.random() < 0.5
             lsb = r.random() < 0.5
-            nbytes = (n + 7) // 8
+            # (a mask may be longer than the array needs: np.packbits of a longer array, sliced logically)
+            nbytes = (n + 7) // 8 + r.choice([0, 0, 0, 1, 2])
             bits = [(v == vw) for v in valid] + [r.random() < 0.5 for _ in range(nbytes * 8 - n)]
             by = []
             for b in range(nbytes):
@@ -299,7 +300,8 @@ class SpecGen:
                         x |= (1 << i) if lsb else (1 << (7 - i))
                 by.append(x)
             content = self.array(inner, n + r.choice([0, 0, 1, 5]), wrap=False)
-            return {"k": "bitmasked", "mask": mk_index(r, by, "u8"), "valid_when": vw, "lsb": lsb, "n": n, "content": content}
+            return {"k": "bitmasked", "mask": mk_index(r, by, "u8"), "valid_when": vw, "lsb": lsb, "n": n, "content": content,
+                    "mask_bytes": nbytes}
         content = self.array(inner, n, wrap=False)
         return {"k": "unmasked", "n": n, "content": content}
 
@@ -501,7 +503,8 @@ def realize(node, spec, rz=None):
         h = node.bytemasked(idx_handle(spec["mask"], spec.get("mask_len", spec["n"]), "mask"), c, spec["valid_when"])
     elif k == "bitmasked":
         c = realize(node, spec["content"], rz)
-        h = node.bitmasked(idx_handle(spec["mask"], (spec["n"] + 7) // 8, "mask"), c, spec["valid_when"], spec["n"], spec["lsb"])
+        h = node.bitmasked(idx_handle(spec["mask"], spec.get("mask_bytes", (spec["n"] + 7) // 8), "mask"), c, spec["valid_when"],
+                           spec["n"], spec["lsb"])
     elif k == "unmasked":
         c = realize(node, spec["content"], rz)
         h = node.unmasked(c)
@@ -517,6 +520,8 @@ def realize(node, spec, rz=None):
         raise AssertionError(k)
     if k in ("listoffset", "list", "regular") and spec.get("param"):
         node.setparam(h, "__array__", '"%s"' % spec["param"])
+    if spec.get("extra_param"):
+        node.setparam(h, spec["extra_param"][0], spec["extra_param"][1])
     rz.all.append(h)
     return h
 
@@ -656,6 +661,16 @@ def wrong_form_variant(spec, r=None):
     if r is not None and r.random() < 0.4:
         d = swapped_fields_variant(spec)
         if d is not None:
+            return d
+    if r is not None and r.random() < 0.25:
+        # the same structure and values under another name: a record called something else, a node with a behaviour
+        # name (__array__) that the declared Form does not have - Forms that differ in parameters only
+        d = strip_virtuals(spec)
+        if d["k"] == "record":
+            d["name"] = (d.get("name") or "") + "Other"
+            return d
+        if not d.get("param") and d["k"] != "empty":
+            d["extra_param"] = ["__array__", '"custom"']
             return d
     d = strip_virtuals(spec)
 
